@@ -293,6 +293,8 @@ def gen_expr(rng: random.Random, depth: int, feats: set, names: list[str], tagn=
 
     lits = ["a", "b", "c", "ab", "ba", "aa", "abc", "bc"]
     if k == "str":
+        if rng.random() < 0.04:
+            return ("str", "")            # the empty literal matches everywhere, also at the very end of the input
         return ("str", rng.choice(lits))
     if k == "ci":
         return ("ci", rng.choice(["a", "Ab", "bC", "B"]))
@@ -726,6 +728,18 @@ def gen_squash_template(rng: random.Random):
             ("range", "a", "b"), ("range", "b", "c"), ("id", "ASCII_DIGIT", None), ("id", "ASCII_HEX_DIGIT", None),
             ("str", "1a"), ("str", "A"), ("id", "NEWLINE", None), ("str", "")]
     alts = rng.sample(pool, rng.choice([2, 3, 3, 4, 5]))
+    if rng.random() < 0.3:
+        # class-syntax mode: one-character literals that mean something inside a regex class ( - ] ^ \ [ ) next to
+        # ordinary ones that sort below and above them, and ranges ending right beside them
+        special = rng.sample(["-", "]", "^", "\\", "[", "+", "*", "/", ",", ".", "!", " ", "{", "}", ":", "@", "`", "|", "$", "(", ")"],
+                             rng.choice([2, 3, 4, 5]))
+        alts = [("str", c) for c in special]
+        if rng.random() < 0.5:
+            alts.insert(rng.randrange(len(alts) + 1), rng.choice([("range", "a", "z"), ("range", "A", "Z"), ("range", "0", "9"),
+                                                                    ("id", "ASCII_HEX_DIGIT", None), ("id", "ASCII_ALPHA_LOWER", None),
+                                                                    ("range", "+", "-"), ("range", "*", "/")]))
+        rules = {"r": (rng.choice(["", "@"]), ("seq", [("rep", ("group", ("choice", alts), None)), ("id", "EOI", None)]))}
+        return rules
     if rng.random() < 0.4:
         # boundary mode: a range (or class) next to a longer literal whose first character sits on, just inside or just
         # outside the range's bounds - whether the optimizer may reorder them hinges on exactly that character
@@ -802,3 +816,17 @@ def modifier_tree(mods, ws_silent: bool = True):
 
 
 TREE_INPUTS = ["<ab,12>", "<a>", "<1,b,22>", "< ab , 12 >", "<ab ,12, c>", "<a b,1 2>", "<ab,12", "<,>", "<ab,,12>", "<c,b,a,0>"]
+
+
+# ---------------------------------------------------------------- PEEK[a..b] grid (C05)
+
+def slice_grid():
+    """r = { PUSH_LITERAL("a") ~ PUSH_LITERAL("b") ~ PUSH_LITERAL("c") ~ PEEK[i..j] ~ EOI } for every pair of bounds in
+    {omitted, -4 … 4}: the one input each grammar accepts is the addressed slice, bottom to top"""
+    bounds = [None, -4, -3, -2, -1, 0, 1, 2, 3, 4]
+    out = []
+    for i in bounds:
+        for j in bounds:
+            body = [("pushlit", "a"), ("pushlit", "b"), ("pushlit", "c"), ("slice", i, j), ("id", "EOI", None)]
+            out.append({"r": ("", ("seq", body))})
+    return out
